@@ -488,6 +488,33 @@ def round_tie(ctx, d, p, values):
                          {"prior": canon_prior(d), "units": [], "seeds": [], "round": [n, num(x0), num(x1)]})
 
 
+def unit_limit_law(ctx, d, a, b, ratio_overflow):
+    """theorem `unit_limits_uniform` / `unitLimits_logUniform` on the real code: the unit limits of the two
+    uniform families are the clamp epsilon of transform.ndtri and its complement (not 0 and 1)"""
+    if d["kind"] not in "UL" or ratio_overflow or isinstance(a, str) or isinstance(b, str):
+        return
+    if a != a or b != b or not math.isfinite(d["hi"] - d["lo"]):
+        ctx.hit("unit-limit-law-skipped")
+        return
+    ok_a = abs(a - 1e-14) <= 1e-22
+    # log-uniform: (log10 U - log10 L) / log10(U / L) is 1 only up to rounding; below 1 it is not clamped
+    want_b = 1 - 1e-14
+    if d["kind"] == "L":
+        # on doubles the log-coordinate hypothesis of the theorem (log10(U/L) = log10 U - log10 L) holds only
+        # up to rounding: the coordinate of the upper limit is t ~ 1, clamped only if 1 <= t <= 1 + eps
+        t = float((np.log10(d["hi"]) - np.log10(d["lo"])) / np.log10(d["hi"] / d["lo"]))
+        if not (t <= 1 + 1e-14):
+            ctx.hit("unit-limit-law-skipped")
+            return
+        want_b = t if t < 1 else 1 - 1e-14
+    ok_b = abs(b - want_b) <= 4e-16
+    if ok_a and ok_b:
+        ctx.hit("unit-limit-law")
+    else:
+        ctx.disagree("unit limits of the uniform families = (eps, 1 - eps)", {"prior": canon_prior(d)},
+                     [num(a), num(b)], [1e-14, num(want_b)])
+
+
 def one_prior(ctx, d, units=None, seeds=None, cfg=None, label="gen", mp_queue=None):
     cfg = cfg or {"repaired": True}
     rng = ctx.rng
@@ -682,6 +709,7 @@ def one_prior(ctx, d, units=None, seeds=None, cfg=None, label="gen", mp_queue=No
 
     # ---- random draws
     a, b = call(lambda: p.lower_unit_limit), call(lambda: p.upper_unit_limit)
+    unit_limit_law(ctx, d, a, b, ratio_overflow)
     if seeds is None:
         seeds = [rng.randrange(2 ** 31) for _ in range(6)]
     rows = []
